@@ -287,6 +287,59 @@ def run_stacks(ctx, r, drv):
         run_one_stack_sequence(ctx, r, drv, hs, args)
 
 
+STAGED_POLICIES = ['default', 'static-priority', 'local-priority-lifo', 'abp-priority-fifo']
+
+
+def run_one_staged(ctx, r, drv, hb, args):
+    """one process of harness/c01_staged.cpp: every worker busy with yielding tasks, staged work submitted meanwhile"""
+    argv = [hb] + [str(a) for a in args]
+    rc, out = sh(argv, timeout=400)
+    lines = out.split('\n')
+    for cl in [x for x in lines if x.startswith('CASE ')]:
+        f = dict(x.split('=', 1) for x in cl.split(' ')[2:] if '=' in x)
+        r.count('staged_converted_after_yield', int(f.get('conv_after_yield', '0')))
+        r.count('staged_converted_elsewhere', int(f.get('conv_other', '0')))
+        r.count('staged_tasks_submitted_to_busy_workers', int(f.get('tasks', '0')))
+        if int(f.get('conv_after_yield', '0')) == 0:
+            r.notes.append('staged scenario %s %s workers: no staged description was converted after a yield (%s)' % (args[1], args[2], cl))
+    process(ctx, r, 'C01', drv, rc, lines, argv, 'staged')
+
+
+def run_staged(ctx, r, drv):
+    """starvation of staged work: no worker ever idles (2-3 tasks per worker loop on this_thread::yield()), normal-priority
+    work is submitted round robin from an OS thread and from tasks; every submitted task must run within a bound
+    (signature C01:dropped:staged_never_converted)"""
+    hb = ctx.build_harness('c01_staged', 'c01_staged.cpp')
+    quick = ctx.tier == 'quick'
+    cfgs = []
+    k = 0
+    for rep in range(1 if quick else 4):
+        for pol in STAGED_POLICIES:
+            for t in ((1, 2, 4) if quick else (1, 2, 3, 4, 8)):
+                cfgs.append((ctx.seed * 1000 + k, pol, t, 240 if quick else 900, 8))
+                k += 1
+    from concurrent.futures import ThreadPoolExecutor
+    sub = Result()
+    subs = []
+    with ThreadPoolExecutor(max_workers=3) as ex:
+        def one(a):
+            rr = Result()
+            run_one_staged(ctx, rr, drv, hb, a)
+            return rr
+        subs = list(ex.map(one, cfgs))
+    for rr in subs:
+        r.evaluations += rr.evaluations
+        r.traces += rr.traces
+        r.hits.extend(rr.hits)
+        r.notes.extend(rr.notes)
+        r.nontrivial_keys |= rr.nontrivial_keys
+        for k_, v in rr.dist.items():
+            r.count(k_, v)
+        for s_ in rr.samples[:1]:
+            if len([x for x in r.samples if isinstance(x, dict) and 'staged' in str(x.get('case', ''))]) < 1:
+                r.samples.append(s_)
+
+
 def run(ctx):
     if ctx.replay:
         try:
@@ -301,8 +354,17 @@ def run(ctx):
             hs = ctx.build_harness('c01_stacks', 'c01_stacks.cpp')
             run_one_stack_sequence(ctx, r, drv, hs, rep['args'][:5])
             return r
+        if rep.get('harness') == 'c01_staged' and len(rep.get('args', [])) >= 4:
+            r = Result()
+            ctx.build_pika()
+            drv = ctx.build_model('C01', 'ExtractC01.v', 'drv_c01.ml')
+            hb = ctx.build_harness('c01_staged', 'c01_staged.cpp')
+            run_one_staged(ctx, r, drv, hb, rep['args'])
+            return r
     r = run_modes(ctx, 'C01', ['c01', 'guard'], 'ExtractC01.v', 'drv_c01.ml', 'c01_trace.cpp', 'c01_trace')
     if not ctx.replay:
-        run_stacks(ctx, r, ctx.build_model('C01', 'ExtractC01.v', 'drv_c01.ml'))
+        drv = ctx.build_model('C01', 'ExtractC01.v', 'drv_c01.ml')
+        run_stacks(ctx, r, drv)
+        run_staged(ctx, r, drv)
         run_yield_to(ctx, r)
     return r
